@@ -46,8 +46,9 @@ def run_proofs(rep: Report, mods: List[str], keys: List[str], replays: Dict[str,
                 rep.errors.append("pyvc engine error on %s: %s" % (key, r.get("detail", "")[-600:]))
             continue
         for vp in r["info"].get("vacuous_paths", []):
-            rep.errors.append("vacuous path (its path condition is contradictory, canary `False` proved): %s" % vp)
+            rep.errors.append("vacuous obligation (every path condition it is checked under is contradictory; canary `False` proved): %s" % vp)
         rep.extra["canaries_checked"] = rep.extra.get("canaries_checked", 0) + r["info"].get("canaries", 0)
+        rep.extra["infeasible_paths_kept_by_the_pruner"] = rep.extra.get("infeasible_paths_kept_by_the_pruner", 0) + r["info"].get("infeasible_paths", 0)
         by_name: Dict[str, List[dict]] = {}
         for x in r["results"]:
             by_name.setdefault(x["name"], []).append(x)
